@@ -215,11 +215,10 @@ def bodyAllowedForStatus (code : Nat) : Bool := !((100 ≤ code && code ≤ 199)
 method. -/
 def readTransfer (isResp : Bool) (reqMethod : Bytes) (code major minor : Nat) (close0 : Bool)
     (hs : List KV) : E Transfer :=
-  let (major, minor) := if major == 0 && minor == 0 then (1, 1) else (major, minor)
-  -- parseTransferEncoding
+  -- parseTransferEncoding (HTTP/0.0 is taken for 1.1)
   let teVals := vals hs teKey
   let hs1 := del hs teKey
-  let atLeast11 := major > 1 || (major == 1 && minor ≥ 1)
+  let atLeast11 := (major == 0 && minor == 0) || major > 1 || (major == 1 && minor ≥ 1)
   let teRes : E Bool :=
     if teVals.isEmpty || !atLeast11 then .ok false
     else match teVals with
@@ -444,9 +443,7 @@ def readRequest (inp : Bytes) : R Parsed :=
           | .complete hs r2 =>
             let hosts := vals hs hostKey
             if hosts.length > 1 then .malformed else
-            let host := match auth with
-              | some a => a
-              | none => hosts.headD []
+            let host := auth.getD (hosts.headD [])
             let hs1 := fixPragma hs
             let close0 := shouldClose major minor hs1
             liftE (readTransfer false method 200 major minor close0 hs1) fun t =>
